@@ -1,8 +1,9 @@
 CHECK = {
-    "obligations": ["C06.c06_fields", "C06.c06_reply", "C06.c06_reply_extract", "C06.c06_ws", "C06.c06_ws_carrier", "C06.c06_tls_carrier", "C06.parseClientHello_serialize", "C06.gen_hello_structure",
+    "obligations": ["C07.gen_proxy_book", "C07.c06_method_found", "C07.pinned_mixed_case_refused", "C06.c06_fields", "C06.c06_reply", "C06.c06_reply_extract", "C06.c06_ws", "C06.c06_ws_carrier", "C06.c06_tls_carrier", "C06.parseClientHello_serialize", "C06.gen_hello_structure",
                     "HS.parseExts_correct", "HS.lookupExt_last", "HS.ksLoop_find", "HS.gen_ks",
                     "C06.serverHello_layout", "C06.gen_reply_structure", "C06.gen_ws_structure", "C06.gen_sNeed",
                     "HS.gen_client_layout", "HS.gen_server_layout", "HS.mkPlain_layout", "HS.window_exact"],
+    "lean_module": "CloakModel.Props.C06Disp",
     "scenarios": ["C06"],
     "reset_ops": ["hs.oracle.reset"],
     "timeout": {"quick": 300, "thorough": 1800},
